@@ -309,6 +309,68 @@ def r204(ctx, classes):
         raise AnalysisError(f"R-20.4: only {n} pbc_dist_coordinate call sites found")
 
 
+def r205(ctx, rid="R-20.5"):
+    """calculate_order applies the vel_rev negation to the velocities it finally uses:
+    every definition of the velocity array (parameter, re-read from the file) reaches the
+    store to system.vel only through a test of system.vel_rev that selects the negation."""
+    tree = ctx.tree
+    f = tree.func(ENGBASE, "EngineBase.calculate_order")
+    fl = flow_of(f)
+    cfg = fl.cfg
+    stores = [d for d in fl.defs if d.path == "system.vel" and d.kind == "assign"]
+    if not stores:
+        ctx.bad(rid, f, "calculate_order never sets system.vel: velocity-dependent order parameters see stale velocities")
+        return
+
+    def negates(e):
+        for x in ast.walk(e):
+            if isinstance(x, ast.UnaryOp) and isinstance(x.op, ast.USub) and not isinstance(x.operand, ast.Constant):
+                return True
+            if isinstance(x, ast.BinOp) and isinstance(x.op, ast.Mult):
+                for b in (x.left, x.right):
+                    try:
+                        if float(ast.literal_eval(b)) < 0:
+                            return True
+                    except Exception:
+                        pass
+        return False
+
+    for S in stores:
+        v = S.value
+        vname = None
+        for x in ast.walk(v):
+            if isinstance(x, ast.Name) and x.id not in ("system",):
+                vname = x.id
+        # tests of vel_rev that select a negation
+        sel_tests = set()
+        if isinstance(v, ast.IfExp) and "vel_rev" in ast.unparse(v.test) and (negates(v.body) != negates(v.orelse)):
+            sel_tests.add(S.at.id)
+        for n in walk_local(f):
+            if isinstance(n, ast.If) and "vel_rev" in ast.unparse(n.test):
+                if any(isinstance(st, (ast.Assign, ast.AugAssign)) and negates(st.value if isinstance(st, ast.Assign) else st) or (isinstance(st, ast.AugAssign) and isinstance(st.op, ast.Mult)) for st in n.body):
+                    sel_tests.add(cfg.node_of(n.test).id)
+        if not sel_tests:
+            ctx.bad(rid, S.stmt, "calculate_order stores velocities to system.vel without a vel_rev-conditional negation: velocity-type order parameters do not change sign under velocity reversal")
+            continue
+        raw = [d for d in fl.defs if d.path == vname and (d.kind == "param" or (d.kind == "assign" and not negates(d.value)))] if vname else []
+        bad = None
+        for d in raw:
+            if d.at.id in sel_tests:
+                continue
+            r = cfg.reachable(d.at, avoid=[cfg.nodes[i] for i in sel_tests if i != S.at.id])
+            if S.at.id in sel_tests:
+                continue  # the store itself selects the sign from whatever reaches it
+            if S.at.id in r:
+                bad = d
+        if bad is not None:
+            ctx.bad(rid, S.stmt,
+                    f"the velocities defined at line {bad.at.line} ({short(bad.stmt, 40) if bad.stmt is not None else 'parameter'}) reach system.vel without passing the vel_rev negation: "
+                    "when the configuration is re-read from the file, a frame with vel_rev set gets un-negated velocities, so velocity-type order parameters do not change sign under reversal",
+                    construct=short(S.stmt, 70))
+        else:
+            ctx.ok(rid, S.stmt, "every velocity array that reaches system.vel (parameter or re-read) passes the vel_rev-conditional negation")
+
+
 def r203(ctx, classes):
     rid = "R-20.3"
     tree = ctx.tree
@@ -346,6 +408,7 @@ def run(ctx):
     ctx.rule("R-20.2", "every box handed to pbc_dist_coordinate is system.box[:3]", floor=4)
     ctx.rule("R-20.3", "velocity dependence declared iff calculate reads system.vel; Path.reverse recomputes for velocity-dependent parameters", floor=6)
     ctx.rule("R-20.4", "the minimum-image wrap is applied to the raw difference of two positions, before any rescaling (necessary for invariance under periodic image shifts)", floor=4)
+    ctx.rule("R-20.5", "calculate_order applies the vel_rev negation to the velocities it finally uses (parameter or re-read), so velocity-type parameters change sign under reversal", floor=1)
     classes = op_classes(ctx.tree)
     if len(classes) < 6:
         raise AnalysisError(f"C20: only {len(classes)} order-parameter classes with calculate() found (expected >= 6)")
@@ -353,6 +416,7 @@ def run(ctx):
     ctx.attempt(r202, ctx, classes)
     ctx.attempt(r203, ctx, classes)
     ctx.attempt(r204, ctx, classes)
+    ctx.attempt(r205, ctx)
 
 
 VARIANTS = [
@@ -368,6 +432,10 @@ VARIANTS = [
     B("c20-reverse-never-recomputes", PATH, "        if order_function.velocity_dependent and rev_v:\n            for phasepoint in new_path.phasepoints:\n                phasepoint.order = order_function.calculate(phasepoint)", "        if False:\n            for phasepoint in new_path.phasepoints:\n                phasepoint.order = order_function.calculate(phasepoint)", "R-20.3"),
     B("c20-dihedral-normalise-before-wrap", ORDERP, "        vector3 = pos[self.index[3]] - pos[self.index[2]]\n", "        vector3 = pos[self.index[3]] - pos[self.index[2]]\n        vector2 /= np.linalg.norm(vector2)\n", "R-20.4", control=True, why="seeded C20_a"),
     B("c20-distance-wrap-of-scaled", ORDERP, "            box = np.array(system.box[:3])\n            delta = pbc_dist_coordinate(delta, box)\n        lamb = np.sqrt(np.dot(delta, delta))\n        return [lamb]", "            box = np.array(system.box[:3])\n            delta = pbc_dist_coordinate(0.5 * delta, box) * 2\n        lamb = np.sqrt(np.dot(delta, delta))\n        return [lamb]", "R-20.4"),
+    B("c20-negation-before-reread", ENGBASE, "        # Convert system into an internal representation:\n        if any((xyz is None, vel is None, box is None)):", "        if vel is not None and system.vel_rev:\n            vel = vel * -1.0\n        # Convert system into an internal representation:\n        if any((xyz is None, vel is None, box is None)):", "R-20.5", control=True, why="seeded C20_b",
+      also=[(ENGBASE, "            system.vel = vel * -1.0 if system.vel_rev else vel", "            system.vel = vel")]),
+    B("c20-negation-dropped", ENGBASE, "            system.vel = vel * -1.0 if system.vel_rev else vel", "            system.vel = vel", "R-20.5"),
+    K("c20-keep-negation-as-if", ENGBASE, "            system.vel = vel * -1.0 if system.vel_rev else vel", "            if system.vel_rev:\n                vel = -vel\n            system.vel = vel"),
     K("c20-keep-puckering-array-index", ORDERP, "        pos = system.pos[list(self.index)]", "        pos = np.array(system.pos[list(self.index)])"),
     K("c20-keep-distance-copy-then-inplace", ORDERP, "        delta = system.pos[self.index[1]] - system.pos[self.index[0]]\n        if self.periodic and system.box is not None:\n            box = np.array(system.box[:3])\n            delta = pbc_dist_coordinate(delta, box)\n        lamb = np.sqrt(np.dot(delta, delta))\n        return [lamb]", "        delta = np.array(system.pos[self.index[1]])\n        delta -= system.pos[self.index[0]]\n        if self.periodic and system.box is not None:\n            box = np.array(system.box[:3])\n            delta = pbc_dist_coordinate(delta, box)\n        lamb = np.sqrt(np.dot(delta, delta))\n        return [lamb]"),
     K("c20-keep-box-local", ORDERP, "            box = np.array(system.box[:3])\n            vector1 = pbc_dist_coordinate(vector1, box)", "            lengths = system.box[:3]\n            box = np.array(lengths)\n            vector1 = pbc_dist_coordinate(vector1, box)"),
